@@ -248,16 +248,25 @@ def rule_grisu(col, facts):
     fb = facts.fn(WF + "compact::fast_binary_power")
     sh = mss(fb)
     if sh is None:
-        col.bad(R, "fast_binary_power-shape", "not `(q.wrapping_mul(C) >> S) - A` any more", fb.loc())
-        return
-    C, K, S, A = sh
+        from rules.pathmodel import Model, Shape as _Shape, Panic as _Panic
+        try:
+            m_ = Model(fb, "i32")
+            m_.value([0])
+            bpow = lambda q: m_.value([q])
+        except (_Shape, _Panic) as e:
+            col.assumed("not-applied", "TBL-grisu:fast_binary_power", "fast_binary_power is neither `(q.wrapping_mul(C) >> S) - A` nor loop-free integer arithmetic (%s): exponents not decided" % e, fb.loc())
+            return
+        C = K = S = A = None
+    else:
+        C, K, S, A = sh
+        bpow = lambda q: ((q * C - K) >> S) + A
     for i, m in enumerate(table):
         q = first + step * i
         em, ee = D.norm_pow(10, q, 64, "nearest")
         if em == (1 << 64):
             em >>= 1
             ee += 1
-        be = ((q * C - K) >> S) + A
+        be = bpow(q)
         col.check(R, "GRISU_POWERS_OF_TEN[%d]" % i, m == em and be == ee,
                   "entry %#x / exponent %d, 10^%d rounded to 64 bits is %#x * 2^%d (Grisu's 1/2-ulp cached-power bound needs nearest)" % (m, be, q, em, ee), loc)
     # the constants inside cached_grisu_power must agree with the table and the helper
@@ -268,7 +277,7 @@ def rule_grisu(col, facts):
     # coverage: the loop terminates inside the table for every reachable exponent: for exp in range, some idx has
     # EXPMIN <= exp + binexp(idx) + 64 <= EXPMAX
     lo_e, hi_e = -1075 - 64 - 1, 1024 + 64 + 1
-    be_of = [((first + step * i) * C - K >> S) + A for i in range(len(table))]
+    be_of = [bpow(first + step * i) for i in range(len(table))]
     uncovered = [e for e in range(lo_e, hi_e + 1) if not any(-60 <= e + b + 64 <= -32 for b in be_of)]
     col.check(R, "cached-power-coverage", not uncovered and -60 in consts and -32 in consts,
               "binary exponents %s have no cached power with -60 <= e+binexp+64 <= -32: the search loop walks out of the table" % uncovered[:5], cg.loc())
